@@ -141,7 +141,15 @@ func ToValidatePeriod(now time.Time, v string, isRelative bool) (string, error) 
 	}
 
 	if isRelative {
+		// the relative form used here has no month or year fields: 31 days and more cannot be expressed
+		if d >= 31*24*time.Hour {
+			return "", fmt.Errorf("duration %s is too long for a relative validity period", v)
+		}
 		return timeToSMPPTimeFormatRelative(d), nil
+	}
+	// the absolute form carries two year digits
+	if y := now.Add(d).UTC().Year(); y < 2000 || y > 2099 {
+		return "", fmt.Errorf("target date is outside 2000..2099")
 	}
 	return timeToSMPPTimeFormatAbsolute(now, now.Add(d)), nil
 }
